@@ -12,6 +12,7 @@ DONE = {
  'C14': 'reward contract: INV-RW (sum accrued <= recorded <= bank; sum balances = total) inductive over every message; claim pays whole units and keeps the fraction; index update strands < 1 unit',
  'C15': 'reward contract: per-step frame/settle/proportionality equalities in exact atomics + paired executions (both orders) of independent operations',
  'C17': 'dispatcher: swap offer <= held and stSei-side share after swap (oracle price), DispatchRewards keeper = floor(balance x rate), everything forwarded, order; known finding: zero-coin sends',
+ 'C18': 'both tokens: instantiate (0..3 possibly repeated addresses) and every execute variant conserve sum(balances) = total_supply; mint/burn only hub; allowance limits and expiry; CheckSlashing on burns',
  'C20': 'instantiate + every update message with independently optional fields: stored fee/threshold/keeper rate <= 1, fixed denominations, omitted fields unchanged',
  'C12': 'delegation / undelegation kernels: conservation, balance bounds, termination, error exactly when request > total',
 }
